@@ -651,6 +651,13 @@ async def load_scripts(
             parts = global_ctx_name.split(".")
             root = f"{parts[0]}.{parts[1]}"
             will_reload.add(root)
+    #
+    # a module whose file was deleted (or "commented" with #) is changed too: its importers must be reloaded
+    #
+    for global_ctx_name in ctx_delete:
+        if global_ctx_name.startswith("modules.") and global_ctx_name not in ctx2files:
+            parts = global_ctx_name.split(".")
+            will_reload.add(f"{parts[0]}.{parts[1]}")
 
     if len(will_reload) > 0:
 
@@ -685,8 +692,10 @@ async def load_scripts(
     # __init__.py or module/app .py file, and delete everything else
     #
     done = set()
-    for global_ctx_name, src_info in ctx2files.items():
-        if not src_info.force:
+    ctx_gone = sorted(global_ctx_name for global_ctx_name in ctx_delete if global_ctx_name not in ctx2files)
+    for global_ctx_name in [*ctx2files.keys(), *ctx_gone]:
+        # a deleted app or module file is a change of its package as well
+        if global_ctx_name in ctx2files and not ctx2files[global_ctx_name].force:
             continue
         if not global_ctx_name.startswith("apps.") and not global_ctx_name.startswith("modules."):
             continue
